@@ -25,14 +25,37 @@ type KeyKind[K any] struct {
 	Name string
 	Mk   func(int) K
 	Un   func(K) int
+	// Strict, if set, is what the user's comparator uses instead of Un: it does not tolerate the zero
+	// value of K (a comparator over pointer keys dereferences them), so a library that hands the
+	// comparator a key the user never supplied blows up, as it would for a real user.
+	Strict func(K) int
 }
 
-var IntKeys = KeyKind[int]{"int", func(i int) int { return i }, func(k int) int { return k }}
+func (kk KeyKind[K]) ord(k K) int {
+	if kk.Strict != nil {
+		return kk.Strict(k)
+	}
+	return kk.Un(k)
+}
+
+// PtrKeys are pointer keys ordered by what they point to; every Mk returns a fresh pointer.
+var PtrKeys = KeyKind[*int]{Name: "ptr",
+	Mk: func(i int) *int { v := i; return &v },
+	Un: func(k *int) int {
+		if k == nil {
+			return 0
+		}
+		return *k
+	},
+	Strict: func(k *int) int { return *k }}
+
+
+var IntKeys = KeyKind[int]{Name: "int", Mk: func(i int) int { return i }, Un: func(k int) int { return k }}
 // IntZeroKeys shifts by one so that the Go zero value (0) is a legitimate key.
-var IntZeroKeys = KeyKind[int]{"int0", func(i int) int { return i - 1 }, func(k int) int { return k + 1 }}
-var StringKeys = KeyKind[string]{"string",
-	func(i int) string { return fmt.Sprintf("k%07d", i) },
-	func(k string) int {
+var IntZeroKeys = KeyKind[int]{Name: "int0", Mk: func(i int) int { return i - 1 }, Un: func(k int) int { return k + 1 }}
+var StringKeys = KeyKind[string]{Name: "string",
+	Mk: func(i int) string { return fmt.Sprintf("k%07d", i) },
+	Un: func(k string) int {
 		if len(k) < 2 {
 			return 0
 		}
@@ -40,9 +63,9 @@ var StringKeys = KeyKind[string]{"string",
 		fmt.Sscanf(k[1:], "%d", &n)
 		return n
 	}}
-var StructKeys = KeyKind[SKey]{"struct",
-	func(i int) SKey { return SKey{A: i / 10, B: string(rune('a' + i%10))} },
-	func(k SKey) int {
+var StructKeys = KeyKind[SKey]{Name: "struct",
+	Mk: func(i int) SKey { return SKey{A: i / 10, B: string(rune('a' + i%10))} },
+	Un: func(k SKey) int {
 		if k.B == "" {
 			return 0
 		}
@@ -174,7 +197,7 @@ func New[K any](kk KeyKind[K], cfg Config, calls *int) Coll[K] {
 func newColl[K any](kk KeyKind[K], cfg Config, base func(a, b int) int, count func()) Coll[K] {
 	switch cfg.Flavor {
 	case "less":
-		less := xsort.Less[K](func(a, b K) bool { count(); return base(kk.Un(a), kk.Un(b)) < 0 })
+		less := xsort.Less[K](func(a, b K) bool { count(); return base(kk.ord(a), kk.ord(b)) < 0 })
 		if cfg.Set {
 			return setColl[K]{tree.NewSet[K](less)}
 		}
@@ -183,10 +206,10 @@ func newColl[K any](kk KeyKind[K], cfg Config, base func(a, b int) int, count fu
 		mag := cfg.Flavor == "cmpmag"
 		cmp := func(a, b K) int {
 			count()
-			c := base(kk.Un(a), kk.Un(b))
+			c := base(kk.ord(a), kk.ord(b))
 			if mag {
 				// only the sign may matter
-				d := kk.Un(a) - kk.Un(b)
+				d := kk.ord(a) - kk.ord(b)
 				if d < 0 {
 					d = -d
 				}
